@@ -647,5 +647,9 @@ SILENT = [
     Silent("decoder-int-branches-share-a-method", BANANA, "            elif typebyte == INT:\n                buffer = rest\n                num = b1282int(num)\n                gotItem(num)\n            elif typebyte == LONGINT:\n                buffer = rest\n                num = b1282int(num)\n                gotItem(num)\n",
            "            elif typebyte in (INT, LONGINT):\n                buffer = rest\n                self._deliverInteger(num, 1)\n",
            more=[(BANANA, "    buffer = b\"\"\n\n    def dataReceived(self, chunk):\n", "    buffer = b\"\"\n\n    def _deliverInteger(self, digits, sign):\n        self.gotItem(sign * b1282int(digits))\n\n    def dataReceived(self, chunk):\n")]),
+    Silent("header-written-by-module-helper", BANANA, "            int2b128(len(obj), write)\n            write(LIST)\n", "            _header(len(obj), LIST, write)\n",
+           more=[(BANANA, "class Banana(protocol.Protocol, styles.Ephemeral):\n", "def _header(number, marker, write):\n    int2b128(number, write)\n    write(marker)\n\n\nclass Banana(protocol.Protocol, styles.Ephemeral):\n")]),
+    Silent("unsupported-type-message-built-first", BANANA, "            raise BananaError(\n                \"Banana cannot send {} objects: {!r}\".format(\n                    fullyQualifiedName(type(obj)), obj\n                )\n            )\n",
+           "            typeName = fullyQualifiedName(type(obj))\n            raise BananaError(f\"Banana cannot send {typeName} objects: {obj!r}\")\n"),
     Silent("b1282int-shift-form", BANANA, "        i += n * e\n        e <<= 7\n", "        i = i + (n * e)\n        e = e * 128\n"),
 ]
